@@ -10,6 +10,7 @@ CONSTANTS
   MCWrites = 0
   MCPauses = 0
   MCPanics = {}
+  MCGoAway = FALSE
 CONSTRAINT Mark
 POSTCONDITION AllConsumed
 CHECK_DEADLOCK FALSE
